@@ -110,12 +110,12 @@ claim("C13", "proof",
       "statement per if/while; nothing lost, duplicated or reordered. Trace inclusion (C13_trace_inclusion, Lemmas/TracePaths.lean, mutual "
       "induction over every statement tree with an inner induction on the loop fuel): for every program, every set of return locations and "
       "every sequence of branch/loop decisions, the statements the source executes up to its first return are a prefix of the graph walk under "
-      "the same decisions, for every sufficiently large walk budget; the proof shows that paths are stable under all later construction steps "
-      "and that pending exits reach the block they get connected to. Tie to the code (and the concrete budget of the executable walk): both "
+      "the same decisions (C13_trace: with the concrete budget of the executable walk, which is shown to suffice); the proof shows that paths are stable under all later construction steps "
+      "and that pending exits reach the block they get connected to. Tie to the code: both "
       "executable semantics (source execution ending at the first return; graph walk taking the recorded false target or the other successor) "
       "are evaluated on every real AST/CFG pair (pre-SSA and SSA) under all 2^k decision sequences, the model CFG is compared with the real one "
       "(C12), and the parser's for/compound-assignment expansions are compared with hand expansions.",
-      "Lean kernel + standard axioms; the theorem is about the model of lifting (tied by CFG equality in C12) and the unbounded walk; statements are "
+      "Lean kernel + standard axioms; the theorem is about the model of lifting (tied by CFG equality in C12); statements are "
       "identified by source range, kind and declared/assigned name.",
       "Lean 4 proof (conservation in order; trace inclusion for all programs and decision sequences) + exhaustive bounded trace comparison on real CFGs", "5 (C13)")
 
